@@ -1,6 +1,7 @@
 /- Entry-style and remaining `HashMap` operations of the line protocol. -/
 import Hb.Driver.Base
 import Hb.Model.Entry
+import Hb.Model.EntryPanic
 namespace Hb.Driver
 open Hb
 
@@ -97,6 +98,8 @@ def execEntryOp (st : DState) (env : Env) (name : String) (args : List String) (
     match parseEChain chain with
     | some c => if rustcChainOk c then ent (Map.rustcEntry cfg env (nat! k) (nat! kid) c w) else bad
     | none => bad
+  | "entry_replace_panic", [k, kid] =>
+    no <| resOut (Map.entryReplacePanic cfg env (nat! k) (nat! kid) w) (fun b => if b then "occ" else "vac") w
   | "try_insert", [k, kid, vid, v] =>
     no <| resOut (Map.tryInsert cfg env ⟨nat! k, nat! kid, nat! vid, nat! v⟩ w) (fmtEnt ids "ok" "err") w
   | "raw_from_key", k :: chain =>
